@@ -87,6 +87,10 @@ func newExec(p *Program, cs *ContractSet, fn *ssa.Function, ct *Contract) *Exec 
 }
 
 func (p *Program) verifyFunction(cs *ContractSet, ct *Contract) *FnResult {
+	return p.verifyFunctionWith(cs, ct, nil)
+}
+
+func (p *Program) verifyFunctionWith(cs *ContractSet, ct *Contract, findings map[string][]Finding) *FnResult {
 	res := &FnResult{Contract: ct, Fn: ct.Func}
 	fn := p.funcs[ct.Func]
 	if fn == nil || len(fn.Blocks) == 0 {
@@ -99,6 +103,7 @@ func (p *Program) verifyFunction(cs *ContractSet, ct *Contract) *FnResult {
 	}
 	ex := newExec(p, cs, fn, ct)
 	ex.nopanic = ct.NoPanic
+	ex.findings = findings
 	prefix := shortFn(ct.Func)
 	fc := ex.newFnCtx(fn, ct, true, prefix)
 	// detached loop contracts
@@ -267,6 +272,9 @@ func (ex *Exec) checkPost(st *State, fc *FnCtx, results []Val, retN int) {
 	}
 	resultNames(sig, rtv, names)
 	env := &SpecEnv{ex: ex, st: st, heap: st.heap, old: st.entry.heap, names: names, oldNames: fc.names, pkg: fnPkg(fn), alloc: st.alloc, oldAlloc: st.entry.alloc}
+	ex.curEnv = env
+	defer func() { ex.curEnv = nil }()
+	ex.cover(st, fc.prefix+"#cover.return", tTrue, ct.Props, "some return path is reachable under the assumed contracts")
 	for i, cl := range ct.Ensures {
 		t, err := env.evalBool(cl.Text)
 		if err != nil {
